@@ -2114,6 +2114,19 @@ def _fields_through_template(n: ast.AST, roots: Set[str]) -> Set[str]:
     return out
 
 
+def _walk_data(e: ast.AST):
+    """the sub-expressions of `e` whose VALUE can become part of the value of `e`: the test of a conditional expression (and the filter of
+    a comprehension) only chooses, it is control"""
+    stack = [e]
+    while stack:
+        n = stack.pop()
+        yield n
+        for ch in ast.iter_child_nodes(n):
+            if isinstance(n, ast.IfExp) and ch is n.test:
+                continue
+            stack.append(ch)
+
+
 def slice_fields(repo: Repo, f: FuncInfo, root: str, cls: Optional[str], control: bool = True, depth: int = 0, seen: Optional[set] = None) -> Set[str]:
     """`fields.slice_fields` (same slice, same blocking of fields handed to helpers that ignore them), except that the methods /
     properties of the sliced object are followed through their flattened and locally normalised bodies: a private helper they
@@ -2174,7 +2187,7 @@ def slice_fields(repo: Repo, f: FuncInfo, root: str, cls: Optional[str], control
     fields: Set[str] = set()
     for e in relexprs:
         blocked = _blocked_by_callee(repo, f, e, root, depth) if depth < 3 else set()
-        for n in ast.walk(e):
+        for n in (ast.walk(e) if control else _walk_data(e)):
             if isinstance(n, ast.Attribute) and isinstance(n.value, ast.Name) and n.value.id in roots and id(n) not in blocked:
                 fields.add(n.attr)
             if isinstance(n, ast.Call) and isinstance(n.func, ast.Name) and n.func.id in F._DUNDER_OF and len(n.args) == 1 \
@@ -2209,3 +2222,318 @@ def slice_fields(repo: Repo, f: FuncInfo, root: str, cls: Optional[str], control
                     if m is not None and depth < 3 and (m.qn, "super") not in seen:
                         out |= follow(m, "super")
     return out
+
+
+# =============================================================================================== valuations: final values, sizes
+def _simple_def(st: ast.AST) -> bool:
+    return (isinstance(st, ast.AnnAssign) and st.value is not None and isinstance(st.target, ast.Name)) or \
+           (isinstance(st, ast.Assign) and len(st.targets) == 1 and isinstance(st.targets[0], ast.Name))
+
+
+def final_values(G: "L.Guards", valuation: Dict[str, bool], seen: Optional[Set[int]] = None) -> List[Tuple[ast.AST, int]]:
+    """The expressions whose value the function can return under the valuation: the operands of the reachable `return`s, with plain local
+    names followed back through the definitions that reach along the edges the valuation leaves open (an inlined helper hands its result
+    over in such names) and conditional expressions resolved by the valuation.  -> [(expression, CFG node where it is evaluated)].
+    A `return` without a value is reported as (None, node); a name that may be a parameter / is not bound by a plain assignment stays."""
+    g = G.g
+    rd = L.rd_of(G.f)
+    if seen is None:
+        seen = G.reach(valuation)
+    vkey = G._vkey(valuation)
+    val = G._val(valuation, seen)
+    out: List[Tuple[ast.AST, int]] = []
+    done: Set[int] = set()
+
+    def follow(e: ast.AST, at: int, depth: int) -> None:
+        if id(e) in done:
+            return
+        done.add(id(e))
+        if isinstance(e, ast.Name) and isinstance(e.ctx, ast.Load) and depth < 16:
+            defs = G._defs(rd, at, e.id, seen, vkey)
+            if defs and all(d != g.entry and _simple_def(g.stmt[d]) for d in defs):
+                for d in sorted(defs):
+                    follow(g.stmt[d].value, d, depth + 1)
+                return
+        if isinstance(e, ast.IfExp):
+            t = C.eval3(e.test, val)
+            if t is not False:
+                follow(e.body, at, depth + 1)
+            if t is not True:
+                follow(e.orelse, at, depth + 1)
+            return
+        out.append((e, at))
+
+    for n in sorted(seen):
+        if g.kind[n] == "return":
+            v = g.stmt[n].value
+            if v is None:
+                out.append((None, n))
+            else:
+                follow(v, n, 0)
+    return out
+
+
+def falls_off_end(f: FuncInfo) -> bool:
+    """can control reach the end of the function body without a `return` / `raise` (the caller then gets None)?"""
+    g = C.cfg_of(f.node)
+    seen = C.reachable_from(g, g.entry)
+    return any(a in seen and g.kind[a] not in ("return", "raise") for a, _l in g.pred[g.exit])
+
+
+def branches_under(sh, val, limit: int = 64) -> List[S.Shape]:
+    """`strshape.branches` with the alternatives that the valuation decides taken that way only"""
+    if isinstance(sh, S.Alt):
+        t = C.eval3(sh.test, val) if val is not None else None
+        if t is True:
+            return branches_under(sh.a, val, limit)
+        if t is False:
+            return branches_under(sh.b, val, limit)
+        return (branches_under(sh.a, val, limit) + branches_under(sh.b, val, limit))[:limit]
+    if isinstance(sh, S.Cat):
+        outs: List[List[S.Shape]] = [[]]
+        for part in sh.parts:
+            bs = branches_under(part, val, limit)
+            outs = [o + [b] for o in outs for b in bs][:limit]
+        return [S.Cat(o) for o in outs]
+    if isinstance(sh, S.Rep):
+        return [S.Rep(b, sh.sep, sh.loop) for b in branches_under(sh.body, val, limit)]
+    return [sh]
+
+
+_SIZE_OPS = {ast.Eq: "==", ast.NotEq: "!=", ast.Gt: ">", ast.GtE: ">=", ast.Lt: "<", ast.LtE: "<="}
+_SIZE_SWAP = {"==": "==", "!=": "!=", ">": "<", ">=": "<=", "<": ">", "<=": ">="}
+_SAME_SIZE_CALLS = ("list", "tuple", "sorted", "reversed", "iter")
+_SAME_SIZE_METHODS = ("values", "items", "keys", "copy")
+
+
+def size_matcher(f: FuncInfo, p, roots: Dict[tuple, str]):
+    """Atom function for `L.Guards`: tests on the SIZE of a collection that is identified by its provenance path (`roots`: path -> label,
+    e.g. ('param:domain', 'attr:constants') -> 'constants').  Atoms are named '<label>|<op>|<n>' (the size `op` n).  Recognised:
+    `len(X) op n` / `n op len(X)`, the truth value of X (`if X`, `not X`, `bool(X)`), `X == []` / `X != ""`, where X is the collection,
+    an alias, a same-size view of it (`.values()`, `list(..)`, `sorted(..)`, a comprehension over it without a filter), a local bound once
+    to one of these, or (truth value only) the text obtained by joining such a view.  `size_valuation` turns a size into a valuation."""
+    rd = L.rd_of(f)
+    g = C.cfg_of(f.node)
+    memo: Dict[int, Optional[Tuple[str, bool]]] = {}
+
+    def root_of(e: ast.AST, depth: int = 0) -> Optional[Tuple[str, bool]]:
+        """(label, exact): exact = the size of e IS the size of the collection; otherwise only emptiness agrees"""
+        if depth > 6:
+            return None
+        k = id(e)
+        if k in memo:
+            return memo[k]
+        memo[k] = None
+        out = None
+        try:
+            tr = p.trace(e)
+        except (KeyError, RecursionError):
+            tr = set()
+        if tr and len(tr) == 1 and next(iter(tr)) in roots:
+            out = (roots[next(iter(tr))], True)
+        elif isinstance(e, ast.Call) and isinstance(e.func, ast.Name) and e.func.id in _SAME_SIZE_CALLS and len(e.args) == 1 and not e.keywords:
+            out = root_of(e.args[0], depth + 1)
+        elif isinstance(e, ast.Call) and isinstance(e.func, ast.Name) and e.func.id in ("set", "frozenset") and len(e.args) == 1 and not e.keywords:
+            r_ = root_of(e.args[0], depth + 1)
+            out = (r_[0], False) if r_ else None
+        elif isinstance(e, ast.Call) and isinstance(e.func, ast.Attribute) and e.func.attr in _SAME_SIZE_METHODS and not e.args and not e.keywords:
+            out = root_of(e.func.value, depth + 1)
+        elif isinstance(e, ast.Call) and isinstance(e.func, ast.Attribute) and e.func.attr == "join" and len(e.args) == 1 and not e.keywords:
+            r_ = root_of(e.args[0], depth + 1)
+            out = (r_[0], False) if r_ else None
+        elif isinstance(e, (ast.ListComp, ast.GeneratorExp)) and len(e.generators) == 1 and not e.generators[0].ifs:
+            out = root_of(e.generators[0].iter, depth + 1)
+        elif isinstance(e, ast.SetComp) and len(e.generators) == 1 and not e.generators[0].ifs:
+            r_ = root_of(e.generators[0].iter, depth + 1)
+            out = (r_[0], False) if r_ else None
+        elif isinstance(e, ast.Name) and isinstance(e.ctx, ast.Load):
+            n = g.node_containing(e)
+            defs = rd.defs_reaching(n, e.id) if n is not None else set()
+            if len(defs) == 1:
+                d = next(iter(defs))
+                st = g.stmt[d]
+                if d != g.entry and _simple_def(st) and not any(
+                        isinstance(c, ast.Call) and isinstance(c.func, ast.Attribute) and isinstance(c.func.value, ast.Name) and c.func.value.id == e.id
+                        and c.func.attr in MUTATORS for c in ast.walk(f.node)):
+                    out = root_of(st.value, depth + 1)
+        memo[k] = out
+        return out
+
+    def is_len(e: ast.AST, depth: int = 0) -> Optional[Tuple[str, bool]]:
+        if isinstance(e, ast.Call) and isinstance(e.func, ast.Name) and e.func.id == "len" and len(e.args) == 1 and not e.keywords:
+            return root_of(e.args[0])
+        if isinstance(e, ast.Name) and isinstance(e.ctx, ast.Load) and depth < 3:
+            # a local bound once to the count
+            n = g.node_containing(e)
+            defs = rd.defs_reaching(n, e.id) if n is not None else set()
+            if len(defs) == 1:
+                d = next(iter(defs))
+                if d != g.entry and _simple_def(g.stmt[d]):
+                    return is_len(g.stmt[d].value, depth + 1)
+        return None
+
+    def int_const(e: ast.AST) -> Optional[int]:
+        return e.value if isinstance(e, ast.Constant) and isinstance(e.value, int) and not isinstance(e.value, bool) else None
+
+    def empty_display(e: ast.AST) -> bool:
+        return (isinstance(e, (ast.List, ast.Tuple, ast.Set)) and not e.elts) or (isinstance(e, ast.Dict) and not e.keys) or \
+               (isinstance(e, ast.Constant) and e.value == "")
+
+    def matcher(e: ast.AST) -> Optional[str]:
+        if isinstance(e, ast.Compare) and len(e.ops) == 1 and type(e.ops[0]) in _SIZE_OPS:
+            a, b, op = e.left, e.comparators[0], _SIZE_OPS[type(e.ops[0])]
+            for x, y, o in ((a, b, op), (b, a, _SIZE_SWAP[op])):
+                r_, c = is_len(x), int_const(y)
+                if r_ is not None and c is not None:
+                    if r_[1]:
+                        return f"{r_[0]}|{o}|{c}"
+                    # only emptiness carries over
+                    if (o, c) in ((">", 0), (">=", 1), ("!=", 0)):
+                        return f"{r_[0]}|>|0"
+                    if (o, c) in (("==", 0), ("<", 1), ("<=", 0)):
+                        return f"!{r_[0]}|>|0"
+                    return None
+                if o in ("==", "!=") and empty_display(y) and not isinstance(x, ast.Constant):
+                    r2 = root_of(x)
+                    if r2 is not None:
+                        return (f"!{r2[0]}|>|0") if o == "==" else f"{r2[0]}|>|0"
+            return None
+        if isinstance(e, (ast.Name, ast.Attribute, ast.Call)) and isinstance(getattr(e, "ctx", ast.Load()), ast.Load):
+            if isinstance(e, ast.Call) and isinstance(e.func, ast.Name) and e.func.id in ("bool", "len"):
+                return None
+            r_ = root_of(e)
+            if r_ is not None:
+                return f"{r_[0]}|>|0"
+        return None
+
+    return matcher
+
+
+def size_valuation(atoms_seen: Set[str], label: str, size: int) -> Dict[str, bool]:
+    """the valuation of the size atoms of one collection for a size: 0, 1, or 2 (= two or more: only the tests that have the same outcome
+    for every size >= 2 are decided)"""
+    import operator
+    ops = {"==": operator.eq, "!=": operator.ne, ">": operator.gt, ">=": operator.ge, "<": operator.lt, "<=": operator.le}
+    out: Dict[str, bool] = {}
+    for a in atoms_seen:
+        parts = a.split("|")
+        if len(parts) != 3 or parts[0] != label or parts[1] not in ops:
+            continue
+        try:
+            c = int(parts[2])
+        except ValueError:
+            continue
+        if size < 2:
+            out[a] = ops[parts[1]](size, c)
+        else:
+            v1, v2 = ops[parts[1]](2, c), ops[parts[1]](10 ** 9, c)
+            if v1 == v2 and ops[parts[1]](3, c) == v1:
+                out[a] = v1
+    return out
+
+
+def may_be_unbound(f: FuncInfo, name: ast.Name) -> bool:
+    """is there a way from the function's entry to this use of a LOCAL name that passes no binding of it?  (the result name of an inlined
+    helper whose body can end without `return`: the helper then gives None)"""
+    g = C.cfg_of(f.node)
+    at = g.node_containing(name)
+    if at is None or name.id in f.params:
+        return False
+    defs = {n for n in g.nodes() if n != g.entry and g.stmt[n] is not None and name.id in C.defs_of(g.stmt[n])}
+    if not defs or at in defs:
+        return False
+    return at in C.reachable_from(g, g.entry, avoid=defs) and consistent_path(f, {at}, avoid=defs) is True
+
+
+def unbound_under(G: "L.Guards", valuation: Dict[str, bool], seen: Optional[Set[int]] = None) -> List[ast.Name]:
+    """reads of a local name on a statement that the valuation reaches, for which NO binding of the name reaches along the edges the
+    valuation leaves open (`if c: x = a` ... `use(x)` under c == False): the statement raises UnboundLocalError on every such run"""
+    f, g = G.f, G.g
+    rd = L.rd_of(f)
+    if seen is None:
+        seen = G.reach(valuation)
+    vkey = G._vkey(valuation)
+    bound_somewhere: Set[str] = set()
+    for n in g.nodes():
+        if n != g.entry and g.stmt[n] is not None:
+            bound_somewhere |= set(C.defs_of(g.stmt[n]))
+    bound_somewhere -= set(f.params)
+    pm = L.parents_of(f)
+    out: List[ast.Name] = []
+    for n in sorted(seen):
+        st = g.stmt[n]
+        h = C.header(st) if st is not None else None
+        if h is None:
+            continue
+        for x in ast.walk(h):
+            if not (isinstance(x, ast.Name) and isinstance(x.ctx, ast.Load) and x.id in bound_somewhere):
+                continue
+            # a name bound by an enclosing comprehension / lambda is not the local
+            cur, shadowed = x, False
+            while cur in pm and not isinstance(cur, ast.stmt):
+                cur = pm[cur]
+                if isinstance(cur, COMPS) and any(x.id in C.target_names(gen.target) for gen in cur.generators):
+                    shadowed = True
+                if isinstance(cur, ast.Lambda) and x.id in {a.arg for a in cur.args.args + cur.args.kwonlyargs}:
+                    shadowed = True
+            if shadowed:
+                continue
+            if not rd.defs_reaching(n, x.id):
+                continue        # never bound before on any path: not a question of the valuation (globals, builtins shadowed later ...)
+            if not G._defs(rd, n, x.id, seen, vkey):
+                out.append(x)
+    return out
+
+
+def consistent_path(f: FuncInfo, targets: Set[int], avoid: Set[int] = frozenset(), budget: int = 20000) -> Optional[bool]:
+    """Is there a way from the entry to one of the `targets` CFG nodes, around `avoid`, on which no test is taken both ways?  Two branch
+    nodes ask the same test when their tests are the same expression (`not` stripped, outcome flipped) over the same reaching definitions
+    of the names in it (`if c: return a` ... `if not c: return b` leaves no way to the end of the body).  True / False; None when the
+    search runs out of budget."""
+    g = C.cfg_of(f.node)
+    rd = L.rd_of(f)
+    steps = [0]
+
+    def key_of(n: int):
+        t = g.stmt[n].test
+        flip = False
+        while isinstance(t, ast.UnaryOp) and isinstance(t.op, ast.Not):
+            t, flip = t.operand, not flip
+        names = sorted({x.id for x in ast.walk(t) if isinstance(x, ast.Name)})
+        return (ast.dump(t), tuple((nm, tuple(sorted(rd.defs_reaching(n, nm)))) for nm in names)), flip
+
+    def dfs(n: int, assumed: Dict[object, bool], onpath: Set[int]) -> Optional[bool]:
+        steps[0] += 1
+        if steps[0] > budget:
+            return None
+        if n in targets:
+            return True
+        out: Optional[bool] = False
+        for m, l in g.succ[n]:
+            if m in avoid or m in onpath and g.kind[m] != "loop":
+                continue
+            if m in onpath:
+                continue
+            nxt = assumed
+            if g.kind[n] == "if" and isinstance(l, bool) and not getattr(g.stmt[n], "_inline_block", False):
+                k, flip = key_of(n)
+                want = (not l) if flip else l
+                if k in assumed and assumed[k] != want:
+                    continue
+                if k not in assumed:
+                    nxt = dict(assumed)
+                    nxt[k] = want
+            r_ = dfs(m, nxt, onpath | {m})
+            if r_ is True:
+                return True
+            if r_ is None:
+                out = None
+        return out
+
+    import sys
+    old = sys.getrecursionlimit()
+    sys.setrecursionlimit(max(old, 10000))
+    try:
+        return dfs(g.entry, {}, {g.entry})
+    finally:
+        sys.setrecursionlimit(old)
